@@ -538,7 +538,7 @@ def results_file_schema_guard(ctx, case, record, full) -> None:
         with open(path, encoding="utf-8") as handle:
             document = AJ.loads(handle.read())
     except Exception as err:  # pylint: disable=broad-except
-        ctx.count("skipped:results-file-not-written:" + type(err).__name__)
+        ctx.violate("results-file-write-crash", {"exception": type(err).__name__, "message": str(err)[:200]}, case)
         return
     for schema in (current, current + 1, current + 7, 0, -1, *sorted(compatible)):
         ctx.count("guard:results-file:schema")
@@ -580,7 +580,14 @@ def run_case(ctx, case) -> None:
     try:
         full_a = run_flow(case, record_a)
     except Exception as err:  # pylint: disable=broad-except
-        # a run that cannot be completed from scratch is not a reuse question (C03/C05/C14 own those)
+        # a run that the pipeline refuses from scratch (input error, refused layout) is not a reuse question
+        # (C03/C05/C14 own those); a crash of another kind leaves the reuse property undecided for every case,
+        # so it is reported rather than skipped
+        from antismash.common.errors import AntismashInputError
+        if not isinstance(err, (AntismashInputError, ValueError)):
+            ctx.violate("scratch-run-crash", {"exception": type(err).__name__, "message": str(err)[:200],
+                                              "where": traceback.format_exc(limit=-3)[-400:]}, case)
+            return
         ctx.count("skipped:scratch-run-failed:" + type(err).__name__)
         ctx.case(("case", case), nontrivial=False)
         return
